@@ -101,7 +101,10 @@ func c10VSSValues() []c19Val {
 	out := c10Values([]int{0x40, 0x41, 0x10}, []uint32{1, 2}, []int{100, 200}, false)
 	for _, ev := range []uint32{1, 2} {
 		for _, p := range []uint64{100, 200} {
-			for _, k := range []uint8{1, 2} {
+			for _, k := range []uint8{1, 2, 3, 4, 5} {
+				if k > 2 && (ev != 1 || p != 100) && k != 3 {
+					continue // the edge forms of the marker: 'BLACKOUT' alone for every event id / PTS, the others once
+				}
 				out = append(out, c19Val{Type: 0x40, Event: ev, HasPTS: true, PTS: p, Num: 1, Exp: 1, VSS: k})
 			}
 		}
@@ -185,7 +188,7 @@ func (a *c10Alphabet) describeOp(op int) string {
 			}
 		}
 		if v.VSS > 0 {
-			p += fmt.Sprintf(" stream-switch-id sig%d", v.VSS)
+			p += fmt.Sprintf(" stream-switch ADI %q", c19VSSText(v.VSS))
 		}
 		return fmt.Sprintf("Process(new{%#x ev%d %s %d/%d})", v.Type, v.Event, p, v.Num, v.Exp)
 	case a.again && op == a.nops()-1:
@@ -705,7 +708,7 @@ func init() {
 				},
 				Check: c10CheckLong, Batch: 4,
 			},
-			c10Scenario("stream-switch-ids", "BFS to depth 4 (thorough 5) over {Process for types {0x40,0x41,0x10} x event {1,2} x PTS {100,200}, and unscheduled-event starts 0x40 whose MID carries stream-switch signal id sig1 / sig2 (the tracker compares these ids between starts of equal event id), Close(equal of the k-th internal element, k<2), Process(same object again)}."+common,
+			c10Scenario("stream-switch-ids", "BFS to depth 4 (thorough 5) over {Process for types {0x40,0x41,0x10} x event {1,2} x PTS {100,200}, and unscheduled-event starts 0x40 whose MID carries stream-switch signal id sig1 / sig2 (the tracker compares these ids between starts of equal event id) or an edge form of the marker ('BLACKOUT' alone, 'BLACKOUT:' with an empty id, the marker not at the start), Close(equal of the k-th internal element, k<2), Process(same object again)}."+common,
 				"vss", "vss", 4, 5),
 			c10Scenario("core-deep", "BFS to depth 5 (thorough 6) over {Process for types {0x10,0x13,0x14,0x41,0x22,0x23} x event {1,2} with PTS = 100+position, Close(equal of the k-th internal element, k<2)}: the deepest breakaway/resumption/close interplay."+common,
 				"core", "core", 5, 6),
